@@ -81,7 +81,13 @@ func (n *Node) SetNode(value *Node) error {
 	node := value.Clone()
 	node.setReference(n.parent, n.key, n.index)
 	n.setReference(nil, nil, nil)
+	for _, child := range n.children {
+		child.parent = nil
+	}
 	*n = *node
+	for _, child := range n.children {
+		child.parent = n
+	}
 	if n.parent != nil {
 		n.parent.mark()
 	}
